@@ -30,16 +30,16 @@ TIERS = {
     "quick": dict(
         mc=dict(MaxTypes=2, MaxFields=2, MaxEdits=3, StructSizes=[1, 2, 9], BitsSizes=[1, 64, 65],
                 EnumMaxBits=[8]),
-        cat=dict(MaxTypes=2, MaxFields=3, MaxEdits=3, ContextFirst=True, per_stratum=3, cap=3500),
-        sim=dict(procs=4, walks=5, walk=True, MaxTypes=4, MaxFields=4, MaxEdits=7, per_stratum=3, cap=2500),
+        cat=dict(MaxTypes=2, MaxFields=3, MaxEdits=3, ContextFirst=True, per_stratum=1, cap=6000),
+        sim=dict(procs=4, walks=5, walk=True, MaxTypes=4, MaxFields=4, MaxEdits=7, per_stratum=1, cap=2500),
         reserved_sample=24,
         mc_timeout=900,
     ),
     "thorough": dict(
         mc=dict(MaxTypes=2, MaxFields=3, MaxEdits=3, StructSizes=[0, 1, 2, 8, 9], BitsSizes=[0, 1, 32, 57, 64, 65],
                 EnumMaxBits=[0, 8]),
-        cat=dict(MaxTypes=2, MaxFields=3, MaxEdits=3, ContextFirst=True, per_stratum=60, cap=30000),
-        sim=dict(procs=12, walks=12, walk=True, MaxTypes=5, MaxFields=5, MaxEdits=8, per_stratum=12, cap=30000),
+        cat=dict(MaxTypes=2, MaxFields=3, MaxEdits=3, ContextFirst=True, per_stratum=8, cap=30000),
+        sim=dict(procs=12, walks=12, walk=True, MaxTypes=5, MaxFields=5, MaxEdits=8, per_stratum=3, cap=30000),
         reserved_sample=None,
         mc_timeout=3000,
     ),
@@ -88,7 +88,11 @@ def _stratify(cases, per_stratum, cap, seed):
     rnd = random.Random(seed)
     groups = {}
     for c in cases:
-        key = (c["cls"], c["ok"], tuple(sorted({f["rule"] for f in c["fails"]})))
+        d = c.get("d") or {}
+        f = {k: v for k, v in (d.get("f") or {}).items() if k not in ("name", "start")}
+        # the boundary parameters of the edit are part of the stratum: every swept value is kept
+        key = (c["cls"], c["ok"], tuple(sorted({x["rule"] for x in c["fails"]})),
+               json.dumps([d.get("op"), d.get("a"), f, d.get("x")], sort_keys=True))
         groups.setdefault(key, []).append(c)
     out = []
     for key in sorted(groups):
